@@ -68,10 +68,11 @@ func (c *Ctx) treeVocab(r *Rule, name string) *treeVocab {
 
 // walkRow: what one trace of match/search does.
 type walkRow struct {
-	events  rowSet
-	excused rowSet
-	stopped bool // collector returned false and the walk ended
-	foreign []string
+	events    rowSet
+	excused   rowSet
+	stopped   bool // collector returned false and the walk ended
+	foreign   []string
+	unguarded []string // collector calls with a possibly empty value list
 }
 
 // classify the child expression: which child of the current node?
@@ -911,3 +912,10 @@ func c05AddSet(c *Ctx) {
 }
 
 var _ = ssa.BuilderMode(0)
+
+// c04CollectGuard (for C14): the collectors of MatchFirst/SearchFirst index element 0; match and search must
+// never hand them an empty list (a filter such as a/#/b leaves a '#' node without values behind).
+func c04CollectGuard(c *Ctx) {
+	c04Table(c, "C14/MATCH", "topic.(*Tree).match", matchRef, map[string]bool{"segment=+": true, "segment=#": true})
+	c04Table(c, "C14/SEARCH", "topic.(*Tree).search", searchRef, nil)
+}
